@@ -209,16 +209,16 @@ def shard_direct_1d(arg):
 # ---------------------------------------------------------------------------
 # dispatch through the discretisation: the state found on the boundary faces after rhs() is the one that the definition
 # of the named condition requires for that side (dir=-1 left, +1 right), with that side's parameters
-def eval_disc_1d(g, bl, br, parL, parR, cells, res=None):
+def eval_disc_1d(g, bl, br, parL, parR, cells, res=None, rname="extrapol1"):
     model = space.euler.euler1d(gamma=g)
     m = space.mesh_spec(("uni", len(cells), 1.0, 0.0))
     prim = np.array(cells, float).T
     q = ph.prim2cons_1d(prim[0], prim[1], prim[2], g)
     if bl == br and parL == parR:
         shared = dict(parL, type=bl)        # one dictionary object for both sides, as a user with identical conditions would write it
-        disc = space.modeldisc.fvm(model, m, space.xnum.extrapol1(), numflux="hllc", bcL=shared, bcR=shared)
+        disc = space.modeldisc.fvm(model, m, space.recon(rname), numflux="hllc", bcL=shared, bcR=shared)
     else:
-        disc = space.modeldisc.fvm(model, m, space.xnum.extrapol1(), numflux="hllc",
+        disc = space.modeldisc.fvm(model, m, space.recon(rname), numflux="hllc",
                                    bcL=dict(parL, type=bl), bcR=dict(parR, type=br))
     f = space.field.fdata(model, m, q)
     viols = []
@@ -230,10 +230,15 @@ def eval_disc_1d(g, bl, br, parL, parR, cells, res=None):
         d = np.array([[float(x)] for x in inter])
         cell = prim[:, 0 if dir < 0 else N - 1]
         out = judge_1d(g, name, dir, d, par, [np.array([float(x)]) for x in bnd])
-        out.append(("interior-side-is-adjacent-cell", np.where(np.all(np.abs(d[:, 0] - cell) <= 64 * EPS * (np.abs(cell) + np.abs(prim).max(axis=1))), 0.0, np.inf) * np.ones(1),
-                    np.ones(1, bool)))
+        if rname != "extrapol1":
+            # higher-order extrapolation: the condition is applied to the interior state extrapolated to the boundary face (read off the face
+            # arrays), which differs from the cell state when the data have a slope there
+            out = [(r_ + "/extrapolated-face-state", e_, m_) for r_, e_, m_ in out]
+        else:
+            out.append(("interior-side-is-adjacent-cell", np.where(np.all(np.abs(d[:, 0] - cell) <= 64 * EPS * (np.abs(cell) + np.abs(prim).max(axis=1))), 0.0, np.inf) * np.ones(1),
+                        np.ones(1, bool)))
         collect(res, out, "euler1d-disc", name, dir,
-                lambda i: {"kind": "disc1d", "gamma": g, "bl": bl, "br": br, "parL": parL, "parR": parR, "cells": cells}, viols)
+                lambda i: {"kind": "disc1d", "gamma": g, "bl": bl, "br": br, "parL": parL, "parR": parR, "cells": cells, "recon": rname}, viols)
     return viols
 
 
@@ -249,6 +254,15 @@ def shard_disc_1d(arg):
             for cells in itertools.product(st, repeat=2):
                 res.nontrivial += 1
                 for s, w, c in eval_disc_1d(g, bl, br, parL, parR, [list(x) for x in cells], res):
+                    res.violation(s, w, c)
+        # unlimited higher-order extrapolations, three cells with slopes next to both boundaries (mild states: the extrapolation stays admissible)
+        mild = [space.euler_state(1.0, 0.3, 1.0, g), space.euler_state(1.2, -0.4, 1.3, g), space.euler_state(0.9, 0.6, 0.8, g)]
+        for rname in ("extrapol2", "extrapol3"):
+            for cells in itertools.product(mild, repeat=3):
+                if cells[0] == cells[1] and cells[1] == cells[2]:
+                    continue
+                res.nontrivial += 1
+                for s, w, c in eval_disc_1d(g, bl, br, pars[0], pars[1], [list(x) for x in cells], res, rname):
                     res.violation(s, w, c)
     return res
 
@@ -535,7 +549,7 @@ def replay(case):
         d = np.array([[x] for x in case["d"]], float)
         v = eval_direct_1d(case["gamma"], case["bc"], case["dir"], d, case["par"])
     elif k == "disc1d":
-        v = eval_disc_1d(case["gamma"], case["bl"], case["br"], case["parL"], case["parR"], case["cells"])
+        v = eval_disc_1d(case["gamma"], case["bl"], case["br"], case["parL"], case["parR"], case["cells"], None, case.get("recon", "extrapol1"))
     elif k == "direct2d":
         d = case["d"]
         dd = [np.array([d[0]], float), np.array([[d[1][0]], [d[1][1]]], float), np.array([d[2]], float)]
